@@ -19,13 +19,18 @@ fn prec(engine: usize, op: &str) -> Option<i32> {
 }
 fn nonassoc(engine: usize, op: &str) -> bool { engine == 1 && matches!(op, "=" | "<>" | "<" | ">" | "<=" | ">=") }
 
-fn build(t: &T) -> SimpleExpr {
-    match t {
+// WRAP: every non-atomic operand is additionally wrapped in `.as_enum(..)`, which MySQL and SQLite render transparently (no
+// syntax of its own): the grouping of the wrapped operand must survive exactly as without the wrapper
+static WRAP: std::sync::atomic::AtomicBool = std::sync::atomic::AtomicBool::new(false);
+fn build(t: &T) -> SimpleExpr { build_at(t, true) }
+fn build_at(t: &T, root: bool) -> SimpleExpr {
+    let e: SimpleExpr = match t {
         T::Atom(n) => Expr::col(Alias::new(*n)).into(),
-        T::Not(x) => build(x).not(),
-        T::Bin(op, l, r) => build(l).binary(OPS.iter().find(|o| o.0 == *op).unwrap().1, build(r)),
-        T::Btw(neg, x, lo, hi) => if *neg { build(x).not_between(build(lo), build(hi)) } else { build(x).between(build(lo), build(hi)) },
-    }
+        T::Not(x) => build_at(x, false).not(),
+        T::Bin(op, l, r) => build_at(l, false).binary(OPS.iter().find(|o| o.0 == *op).unwrap().1, build_at(r, false)),
+        T::Btw(neg, x, lo, hi) => if *neg { build_at(x, false).not_between(build_at(lo, false), build_at(hi, false)) } else { build_at(x, false).between(build_at(lo, false), build_at(hi, false)) },
+    };
+    if !root && !matches!(t, T::Atom(_)) && WRAP.load(std::sync::atomic::Ordering::Relaxed) { e.as_enum(Alias::new("e")) } else { e }
 }
 
 fn lex(s: &str) -> Vec<String> {
@@ -78,12 +83,14 @@ impl P {
 
 fn check(t: &T) -> Option<Witness> {
     let q = Query::select().expr(build(t)).to_owned();
+    let wrap = WRAP.load(std::sync::atomic::Ordering::Relaxed);
     for (e, (name, sql)) in [("mysql", q.to_string(MysqlQueryBuilder)), ("postgres", q.to_string(PostgresQueryBuilder)), ("sqlite", q.to_string(SqliteQueryBuilder))].into_iter().enumerate() {
+        if wrap && e == 1 { continue; }   // Postgres spells the cast CAST(.. AS "e"): self-delimiting, not part of this oracle
         let text = sql.strip_prefix("SELECT ").unwrap_or(&sql);
         let mut p = P { t: lex(text), i: 0, e };
         let got = p.expr(0).filter(|_| p.i == p.t.len());
         if got.as_ref() != Some(t) {
-            return Some(Witness { property: "C05", input: format!("{t:?}"), observed: format!("{name}: `{text}` re-parses as {got:?}"), expected: "the tree that was built".into() });
+            return Some(Witness { property: "C05", input: format!("{}{t:?}", if wrap { "as_enum-wrapped operands: " } else { "" }), observed: format!("{name}: `{text}` re-parses as {got:?}"), expected: "the tree that was built".into() });
         }
     }
     None
@@ -122,7 +129,11 @@ pub fn search(_obl: &str) -> Vec<Witness> {
         pairs.push(T::Bin(i, Box::new(T::Not(Box::new(a.clone()))), Box::new(b.clone())));
         pairs.push(T::Bin(i, Box::new(a.clone()), Box::new(T::Not(Box::new(b.clone())))));
     }
-    for t in pairs { if let Ok(Some(w)) = std::panic::catch_unwind(|| check(&t)) { found.push(w); if found.len() >= 6 { return found; } } }
+    for t in pairs.iter() { if let Ok(Some(w)) = std::panic::catch_unwind(|| check(t)) { found.push(w); if found.len() >= 6 { return found; } } }
+    WRAP.store(true, std::sync::atomic::Ordering::Relaxed);
+    for t in pairs.iter() { if let Ok(Some(w)) = std::panic::catch_unwind(|| check(t)) { found.push(w); if found.len() >= 6 { break; } } }
+    WRAP.store(false, std::sync::atomic::Ordering::Relaxed);
+    if !found.is_empty() { return found; }
     for t in gen(2) { if let Ok(Some(w)) = std::panic::catch_unwind(|| check(&t)) { found.push(w); if found.len() >= 6 { break; } } }
     found
 }
